@@ -79,6 +79,11 @@ fn main() {
             replay_mode: None,
         };
         rv::watchdog::install(&ctx, &frag);
+        // applications run with a logger: in every third shard every log statement of the crates is formatted (and
+        // thrown away), so that what a log line evaluates is executed as well
+        if shard % 3 == 0 {
+            rv::install_sink_logger();
+        }
         let mut out = Outcome::new();
         let res = std::panic::catch_unwind(std::panic::AssertUnwindSafe(|| {
             (info.run)(&ctx, &mut out);
@@ -332,6 +337,8 @@ fn replay(info: &PropInfo, path: &str, known: KnownFindings) -> i32 {
         eprintln!("cannot parse {path}");
         return 2;
     };
+    // a replay always runs with the logger: a violation that only shows when log statements are evaluated replays too
+    rv::install_sink_logger();
     let seed_s = v["run_seed"].as_str().unwrap_or("0x0").trim_start_matches("0x").to_string();
     let run_seed = u64::from_str_radix(&seed_s, 16).unwrap_or(0);
     let ctx = Ctx {
